@@ -18,12 +18,14 @@ def llcOnly : List (Site × List Cls) := [
   (Site.fn_handover_server_serve, [Cls.ndef_EncodeError]),
   (Site.fn_llc_run_as_initiator, [Cls.KeyboardInterrupt, Cls.SystemExit, Cls.OSError]),
   (Site.fn_llc_run_as_target, [Cls.KeyboardInterrupt, Cls.SystemExit, Cls.OSError])]
-theorem llcOnly_ok : checkOnly world table prog llcOnly = true := by decide +kernel
 def llcCan : List (Site × Cls) := [
   (Site.fn_llc_run_as_initiator, Cls.SystemExit),
   (Site.fn_llc_run_as_target, Cls.SystemExit),
   (Site.fn_handover_server_serve, Cls.ndef_EncodeError)]
-theorem llcCan_ok : checkCan world table prog llcCan = true := by decide +kernel
+/-- both lists, checked with one evaluation of the summary table -/
+theorem llcAll_ok : checkAll world table prog llcOnly [] llcCan = true := by decide +kernel
+theorem llcOnly_ok : checkOnly world table prog llcOnly = true := (checkAll_split llcAll_ok).1
+theorem llcCan_ok : checkCan world table prog llcCan = true := (checkAll_split llcAll_ok).2.2
 
 
 /-- `llc.exchange`: `CommunicationError` and `pdu.Error` (undecodable PDU) are absorbed (link disruption);
